@@ -1498,10 +1498,15 @@ O_N = z3.Int('members.N')
 _oj = z3.Int('j!q')
 
 
+O_INNER_EOO = z3.Function('captured.octets.are.the.end-of-octets.marker', I, BoolSort())
+O_EOO_ALLOWED = z3.Bool('decoder.allows.eoo.inside')      # the indefinite-length variant decodes the inner value with allowEoo
+
+
 def o_resolves(j):
     g = O_GOV(j)
-    return And(O_HASOT(j), Not(And(O_OPT(j), Not(O_ISVAL(Select(O_SLOTS0, j))))), O_GOVISVAL(j),
-               Or(O_CALLER_HAS(g), O_DEFAULT_HAS(j, g)))
+    s0 = Select(O_SLOTS0, j)
+    return And(O_HASOT(j), Not(And(O_OPT(j), Not(O_ISVAL(s0)))), O_GOVISVAL(j),
+               Or(O_CALLER_HAS(g), O_DEFAULT_HAS(j, g)), Not(And(O_EOO_ALLOWED, O_INNER_EOO(O_OCTETS(s0)))))
 
 
 def o_expected(j):
@@ -1561,8 +1566,16 @@ def _o_decode(ex, stream, asn1Spec=None, **options):
     """assumed contract of decodeFun on the captured octets: a value of the guiding type, or PyAsn1Error"""
     if ex.choose(ex.fresh('inner.raises', BoolSort()), 'inner-raises'):
         raise _Raise(ExcV('PyAsn1Error'))
-    return Obj('Decoded', {'__id__': O_DEC(toint(stream.fields['octets'].fields['__id__']), toint(asn1Spec.fields['__id__']))},
-               name='decodedInner')
+    octets = toint(stream.fields['octets'].fields['__id__'])
+    allowed = options.get('allowEoo') is True
+    if allowed != ex.c.eoo_allowed:
+        from pyvc.core import ContractError
+        raise ContractError('the contract declares allowEoo=%s for the inner decode, the code passes %s' % (ex.c.eoo_allowed, allowed))
+    if allowed and ex.choose(O_INNER_EOO(octets), 'captured-octets-are-00-00'):
+        return END_OF_OCTETS          # 00 00 inside an ANY: handed out as the marker, the member then stays as captured
+    ident = O_DEC(octets, toint(asn1Spec.fields['__id__']))
+    ex.assume(ident < 0)              # a fresh value object, none of the modelled singletons
+    return Obj('Decoded', {'__id__': ident}, name='decodedInner')
 
 
 _o_decode.is_generator_model = True
@@ -1583,8 +1596,8 @@ OPEN_TYPES_N = Contract(
                 asn1Object=PDerived(_o_record), openTypes=PDerived(_o_caller_map), options=POptions(decodeOpenTypes=PBool())),
     globals={'univ': {'SetOf': {'typeId': 'setof-type-id'}, 'SequenceOf': {'typeId': 'seqof-type-id'}, '__name__': 'univ'},
              'asSeekableStream': FnV(lambda ex, octets: Obj('Stream', {'octets': octets}, name='innerStream'), 'asSeekableStream'),
-             'resolved_upto': FnV(_o_inv, 'resolved_upto'), 'N': O_N},
-    requires=['N >= 0'],
+             'resolved_upto': FnV(_o_inv, 'resolved_upto'), 'N': O_N, 'eooAllowedInside': O_EOO_ALLOWED},
+    requires=['N >= 0', 'not eooAllowedInside'],
     calls={'decodeFun': _o_decode},
     loops={0: Loop(index='k', invariant=['resolved_upto(asn1Object, k)', 'not value_yielded()'], havoc_fields=['asn1Object.slots'])},
     exit_ensures=[
@@ -1595,8 +1608,11 @@ OPEN_TYPES_N = Contract(
     may_raise={'PyAsn1Error': True},
     note='open-type members that are not SET OF / SEQUENCE OF (those: bounded contract); governing members are not themselves '
          'open-type members')
+OPEN_TYPES_N.eoo_allowed = False
 CONTRACTS = CONTRACTS + [OPEN_TYPES_N]
 OPEN_TYPES_N_INDEF = _copy.copy(OPEN_TYPES_N)
 OPEN_TYPES_N_INDEF.id = 'ber.decoder::ConstructedPayloadDecoderBase.indefLenValueDecoder@open-types[any-size]'
 OPEN_TYPES_N_INDEF.qual = 'ConstructedPayloadDecoderBase.indefLenValueDecoder'
+OPEN_TYPES_N_INDEF.requires = ['N >= 0', 'eooAllowedInside']
+OPEN_TYPES_N_INDEF.eoo_allowed = True
 CONTRACTS = CONTRACTS + [OPEN_TYPES_N_INDEF]
